@@ -12,5 +12,5 @@ try:
         pass
 except ImportError:
     pass
-TARGETS = [pc.PB + m for m in ("set_progress", "advance", "finish", "_formatter_bar", "_formatter_percent")]
+TARGETS = [pc.PB + m for m in ("set_progress", "advance", "finish", "_formatter_bar", "_formatter_percent", "clear")]
 LEMMAS = []
